@@ -109,6 +109,7 @@ func caseGen() *rapid.Generator[Case] {
 		}
 		c.Renders = rapid.IntRange(1, 3).Draw(t, "renders")
 		c.AppCB = rapid.SampledFrom([]int{0, 0, 0, 1, 1, 2}).Draw(t, "appcb")
+		c.LateText = rapid.IntRange(0, 7).Draw(t, "late-text") == 0 && c.Pre == 0
 		if rapid.IntRange(0, 3).Draw(t, "pre?") == 0 {
 			c.Pre = 1 + rapid.IntRange(0, len(c.Script.Ops)).Draw(t, "pre")
 		}
